@@ -19,9 +19,11 @@ import (
 	"math/rand"
 	"os"
 	"path/filepath"
+	"runtime"
 	"sort"
 	"strconv"
 	"strings"
+	"time"
 )
 
 // Case is what Run returns.
@@ -45,6 +47,9 @@ type Prop[D any] struct {
 	Gen      func(r *rand.Rand, i int) D
 	Run      func(d D) Case
 	ShardLen int // cases per shard (default 400)
+	// CaseTimeout bounds one Run call (default 180 s).  When the real code hangs on a case, hlib records the case in
+	// current.json, dumps the goroutines and exits with status 3; the driver reports that case as the failing input.
+	CaseTimeout time.Duration
 }
 
 // B is a byte string that serialises to JSON readably: every byte b becomes the
@@ -286,12 +291,29 @@ func Main[D any](p Prop[D]) {
 		shard = shard[:0]
 	}
 	var samples []json.RawMessage
+	caseTimeout := p.CaseTimeout
+	if caseTimeout == 0 {
+		caseTimeout = 180 * time.Second
+	}
+	curPath := filepath.Join(*out, "current.json")
 	for i, it := range items {
-		c := p.Run(it.d)
 		dj, err := json.Marshal(it.d)
 		if err != nil {
 			panic(err)
 		}
+		// Record the case before running it: if the implementation crashes the process (a panic in one of its own
+		// goroutines cannot be recovered here) or hangs, the driver knows which input did it.
+		cur, _ := json.Marshal(map[string]any{"i": i, "desc": json.RawMessage(dj), "src": it.src})
+		os.WriteFile(curPath, cur, 0o644)
+		wd := time.AfterFunc(caseTimeout, func() {
+			fmt.Fprintf(os.Stderr, "hlib: case %d did not finish within %s: the implementation hangs on this input\n", i, caseTimeout)
+			buf := make([]byte, 1<<20)
+			n := runtime.Stack(buf, true)
+			os.Stderr.Write(buf[:n])
+			os.Exit(3)
+		})
+		c := p.Run(it.d)
+		wd.Stop()
 		rec := caseRec{I: i, Desc: dj, Key: c.Key, Sig: c.Sig, Kind: c.Kind, Src: it.src}
 		b, _ := json.Marshal(rec)
 		jw.Write(b)
@@ -312,6 +334,7 @@ func Main[D any](p Prop[D]) {
 	flush()
 	jw.Flush()
 	jf.Close()
+	os.Remove(curPath)
 	if len(samples) == 0 && len(items) > 0 {
 		dj, _ := json.Marshal(items[0].d)
 		samples = append(samples, dj)
